@@ -103,8 +103,14 @@ RULE = ('kinds iso/npoint/rodgers/tarray/tfile/guillot by quota; layers 2-150 (n
         'default covariance, symmetric and non-symmetric user covariance; arrays of 1..2n values with/without '
         'pressure points in any order; Guillot inside and outside the documented bounds incl. zero opacities and '
         'negative temperatures; 30% of the iso/npoint/rodgers/guillot cases are re-evaluated on the SAME object after 1-3 '
-        'parameters were rewritten through its fitting-parameter setters. distinct non-trivial = distinct (kind, sub-kind, nlayers, outcome) with a '
-        'non-constant profile')
+        'parameters were rewritten through its fitting-parameter setters; route "input-file section": profiles built by '
+        'create_temperature_profile(section) / a .par file read by ParameterParser from a SUBSET of the constructor keywords '
+        '(quota of explicit 0 / 0.0 / [] values; 0-2 sections of the same class built before in the same session), judged for '
+        'the parameters Section.resolve gives; route "forward model": one TransmissionModel, 1-4 further evaluations between '
+        'which atm_max_pressure / atm_min_pressure / planet_radius / profile parameters are set through the model, '
+        'model.temperatureProfile judged on model.pressureProfile after each; the Guillot closed form is also evaluated '
+        'independently in Python for every well-conditioned case. distinct non-trivial = distinct (kind, sub-kind, nlayers, '
+        'outcome[, route]) with a non-constant profile')
 ASSUMPTIONS = [
     'np.interp(x, xp, fp): clamped at both ends, otherwise the LAST j with xp[j] <= x, linear between j and j+1 '
     '(validated directly incl. ties and out-of-range abscissae)',
@@ -114,6 +120,10 @@ ASSUMPTIONS = [
     'np.interp + fill values outside the node range',
     'scipy.special.expn(2, x) supplied to the model value by value (E2 is a parameter of the Guillot closed form); '
     'guillot_positive assumes 0 <= E2(x) <= exp(-x)/(1+x) on x >= 0 (checked against scipy on a sample every run)',
+    'input-file route: the constructor keywords and defaults are read from inspect.signature of the class; a section is a '
+    'dict (unique keys); ParameterParser turns numbers into floats and comma lists into lists of floats (container syntax '
+    'is external); TemperatureArray is not registered with the ClassFactory and skiprows cannot be given in a .par file '
+    '(numpy rejects a float): neither is generated',
     'pressure grid and pressure nodes > 0; control temperatures > 0; Rodgers correlation length != 0; smoothing '
     'window a percentage in [0, 100]; distinct pressure points for TemperatureArray',
     'rounding: model on Float vs numpy doubles compared to 1e-10 relative (Guillot: + 1e-15/min(gamma))',
@@ -537,6 +547,27 @@ def guillot_expect(q):
     return 'ok'
 
 
+def guillot_closed_form(P, g, q):
+    """the published formula, written independently of the source; (profile, rtol) with rtol None where the formula is too
+    ill-conditioned in double precision to judge (tiny gamma: 2/(3 gamma) * (1 - ... ) cancels)"""
+    import scipy.special as spe
+    kir, k1, k2 = float(q['kappa_irr']), float(q['kappa_v1']), float(q['kappa_v2'])
+    tirr, tint, alpha = float(q['T_irr']), float(q['T_int']), float(q['alpha'])
+    tau = kir * np.asarray(P, float) / g
+
+    def xi(gamma):
+        return (2.0 / 3.0 + 2.0 / (3.0 * gamma) * (1.0 + (gamma * tau / 2.0 - 1.0) * np.exp(-gamma * tau))
+                + 2.0 * gamma / 3.0 * (1.0 - tau ** 2 / 2.0) * spe.expn(2, gamma * tau))
+    with np.errstate(all='ignore'):
+        g1, g2 = k1 / kir, k2 / kir
+        t4 = (3.0 * tint ** 4 / 4.0 * (2.0 / 3.0 + tau) + 3.0 * tirr ** 4 / 4.0 * (1.0 - alpha) * xi(g1)
+              + 3.0 * tirr ** 4 / 4.0 * alpha * xi(g2))
+        prof = t4 ** 0.25
+    gmin = min(abs(g1), abs(g2))
+    ok = bool(np.all(np.isfinite(prof)) and np.all(t4 > 0) and gmin > 1e-7 and 0.0 <= alpha <= 1.0)
+    return prof, ((1e-7 + 1e-13 / gmin) if ok else None)
+
+
 def in_documented_bounds(q):
     return (1300 <= q['T_irr'] <= 2500 and 1e-10 <= q['kappa_irr'] <= 1 and 1e-10 <= q['kappa_v1'] <= 1 and
             1e-10 <= q['kappa_v2'] <= 1 and 0 <= q['alpha'] <= 1 and 0 <= q['T_int'] <= 1)
@@ -597,39 +628,54 @@ def apply_update(c, tp):
 
 def eval_case(ctx, c):
     quiet()
+    if c.get('route') in ('factory', 'parfile'):
+        return eval_factory_case(ctx, c)
+    if c.get('route') == 'fm':
+        return eval_fm_case(ctx, c)
     tp = judge(ctx, c, dict(c), None)
     if c.get('update') and tp is not None:
         c2 = apply_update(c, tp)
         judge(ctx, c2, dict(c, phase='after-update'), tp)
 
 
-def judge(ctx, c, small, reuse):
-    P = make_pressure(c['pressure'])
-    n = len(P)
+def judge(ctx, c, small, reuse, given=None):
+    """`given` = (P, outcome, profile, planet, object): the real profile was obtained through another route (input-file
+    section / forward model) for the parameters `c`; the judgement is the same"""
     kind = c['kind']
-    workdir = None
-    try:
-        if kind == 'tfile':
-            workdir = tempfile.mkdtemp(prefix='verif_c12_')
-        out_i, prof_i, planet, tp_obj = run_real(c, P, workdir, reuse)
-    finally:
-        if workdir:
-            shutil.rmtree(workdir, ignore_errors=True)
+    route = c.get('route', 'direct')
+    if given is not None:
+        P, out_i, prof_i, planet, tp_obj = given
+        n = len(P)
+    else:
+        P = make_pressure(c['pressure'])
+        n = len(P)
+        workdir = None
+        try:
+            if kind == 'tfile':
+                workdir = tempfile.mkdtemp(prefix='verif_c12_')
+            out_i, prof_i, planet, tp_obj = run_real(c, P, workdir, reuse)
+        finally:
+            if workdir:
+                shutil.rmtree(workdir, ignore_errors=True)
     tfile_pp = None
-    if kind == 'tfile' and c['p_points'] is not None:
+    if 'tfile_pp' in c:
+        tfile_pp = c['tfile_pp']
+    elif kind == 'tfile' and c['p_points'] is not None:
         conv = 1.0 if c.get('press_units', 'Pa') == 'Pa' else 1e-5
         fac = 1.0 if conv == 1.0 else 1e5
         tfile_pp = [float(float(repr(float(p) * conv)) * fac) for p in c['p_points']]
     out_m, prof_m = run_model(ctx, c, P, planet, tfile_pp)
     sub = c.get('sub', '')
     nonconst = prof_i is not None and len(prof_i) > 1 and float(np.nanmax(prof_i)) > float(np.nanmin(prof_i))
-    ctx.case(key=(kind, sub, n, out_i) if (nonconst or out_i != 'ok') else None,
+    ctx.case(key=((kind, sub, n, out_i) + (() if route == 'direct' else (route,))) if (nonconst or out_i != 'ok') else None,
              sample=dict(kind=kind, sub=sub, nlayers=n, outcome=out_i,
                          impl=None if prof_i is None else prof_i[:3], model=None if prof_m is None else prof_m[:3]),
              bucket='kind:' + kind + ('/' + sub if sub else ''))
     ctx.bucket('outcome:' + out_i)
     if c.get('updated'):
         ctx.bucket('after-update:' + kind)
+    if route != 'direct':
+        ctx.bucket('route:%s:%s:%s' % (route, kind, out_i))
     ctx.bucket('layers:' + ('2-9' if n < 10 else '10-49' if n < 50 else '50-150'))
     # ---- correspondence
     ctx.check_eq(kind + ' outcome (ok / invalid / error) vs model', out_i.split(':')[0], out_m, small)
@@ -642,7 +688,7 @@ def judge(ctx, c, small, reuse):
         ctx.check_close(kind + '.profile vs Temperature model', prof_i, prof_m, small, rel=rel,
                         abs_=0.0 if kind != 'guillot' else 1e-9)
     # ---- the property's own predicates, on the implementation
-    key = kind + (':' + sub if sub else '')
+    key = kind + (':' + sub if sub else '') + ('' if route == 'direct' else '@' + route)
     if kind == 'npoint':
         exp = npoint_expect(c, P)
         w = float(c['smoothing_window'])
@@ -690,6 +736,16 @@ def judge(ctx, c, small, reuse):
     judged_positive = True
     if kind == 'guillot':
         q = c['params']
+        # "the Guillot profile matches its published closed form": the formula (Guillot 2010 eq. 49, Line et al. 2012)
+        # evaluated independently for the parameters of the case on the pressure grid of the case
+        ref, rtol = guillot_closed_form(P, float(planet.gravity), q)
+        ctx.bucket('guillot-closed-form:' + ('judged' if rtol is not None else 'ill-conditioned(unjudged)'))
+        if rtol is not None and not C.close(prof_i, ref, rel=rtol, abs_=1e-6):
+            dev = float(np.nanmax(np.abs(prof_i / ref - 1)))
+            ctx.violation(key + '-closed-form', 'the Guillot profile does not match the published closed form for the '
+                          'parameters and the pressure grid it was given (max rel. deviation %.3g)' % dev, small,
+                          dict(profile=prof_i[:5], closed_form=ref[:5], pressure=P[:5], params=q))
+            return tp_obj
         # the domain of theorem guillot_positive: positive opacities, 0 <= alpha <= 1, non-negative temperatures not both 0
         judged_positive = (in_documented_bounds(q) or (
             q['kappa_irr'] > 0 and q['kappa_v1'] > 0 and q['kappa_v2'] > 0 and 0 <= q['alpha'] <= 1
@@ -720,6 +776,398 @@ def judge(ctx, c, small, reuse):
         if lo == hi and not C.close(prof_i, [lo] * n, rel=1e-12 if kind == 'iso' else 1e-10):
             ctx.violation(key + '-not-constant', 'equal control temperatures do not give a constant profile', small)
     return tp_obj
+
+
+# --------------------------------------------------------------------------------------- route: input-file section
+# A profile built from a `[Temperature]` section: taurex.parameter.factory.create_temperature_profile(section) (directly, or a
+# .par file read by ParameterParser).  The constructor receives the section's values over its own defaults
+# (TaurexModel/Section.lean `resolve`, theorems section_given / section_default / section_keys / section_history); the
+# profile is then judged exactly like a directly constructed one, for the RESOLVED parameters.  Every case carries the
+# sections built before it in the same session (`prior`), so that it replays on its own.
+FACTORY = {'guillot': 'guillot', 'npoint': 'npoint', 'iso': 'isothermal', 'rodgers': 'rodgers', 'tarray': 'array',
+           'tfile': 'file'}
+# (TemperatureArray is not registered with the ClassFactory: `profile_type = array` is rejected by the real code)
+FACTORY_KINDS = ['guillot', 'npoint', 'guillot', 'tfile', 'npoint', 'guillot', 'iso', 'tfile', 'rodgers', 'npoint',
+                 'guillot']
+
+
+def factory_class(kind):
+    from taurex.data.profiles.temperature.isothermal import Isothermal
+    from taurex.data.profiles.temperature.npoint import NPoint
+    from taurex.data.profiles.temperature.rodgers import Rodgers2000
+    from taurex.data.profiles.temperature.guillot import Guillot2010
+    from taurex.data.profiles.temperature.temparray import TemperatureArray
+    from taurex.data.profiles.temperature.file import TemperatureFile
+    return dict(guillot=Guillot2010, npoint=NPoint, iso=Isothermal, rodgers=Rodgers2000, tarray=TemperatureArray,
+                tfile=TemperatureFile)[kind]
+
+
+def ctor_defaults(kind):
+    """the constructor's keywords and defaults, read from its signature (independently of the factory's helper)"""
+    import inspect
+    sig = inspect.signature(factory_class(kind).__init__)
+    return [(n, q.default) for n, q in sig.parameters.items()
+            if n != 'self' and q.default is not inspect.Parameter.empty]
+
+
+def pick(rng, keys, p=0.6):
+    return [k for k in keys if rng.random() < p]
+
+
+def gen_section(rng, kind, n, zero_quota, skiprows_ok=True):
+    """(section, file) for one profile of `kind` on `n` layers: a SUBSET of the constructor's keywords; `zero_quota`: give
+    some keyword an explicit falsy value (0, 0.0, [], False) whose default is different"""
+    sec, fil = {}, None
+    if kind == 'guillot':
+        q = gen_guillot(rng)['params']
+        for k_ in pick(rng, list(q)):
+            sec[k_] = q[k_]
+        if zero_quota:
+            r = int(rng.integers(0, 7))
+            if r == 0:
+                sec['alpha'] = 0.0
+            elif r == 1:
+                sec['T_int'] = 0.0
+            elif r == 2:
+                sec['T_int'] = 0
+                sec['alpha'] = 0
+            elif r == 3:
+                sec['T_irr'] = 0.0
+            else:
+                sec[['kappa_irr', 'kappa_v1', 'kappa_v2'][r - 4]] = 0.0
+    elif kind == 'npoint':
+        g = gen_npoint(rng)
+        for k_ in pick(rng, ['T_surface', 'T_top', 'P_surface', 'P_top', 'smoothing_window', 'limit_slope']):
+            sec[k_] = g[k_]
+        if rng.random() < 0.6:
+            sec['temperature_points'] = list(g['temperature_points'])
+            sec['pressure_points'] = list(g['pressure_points'])
+        if zero_quota:
+            r = int(rng.integers(0, 4))
+            if r == 0:
+                sec['smoothing_window'] = 0
+            elif r == 1:
+                sec['smoothing_window'] = 0.0
+            elif r == 2:
+                sec['temperature_points'] = []
+                sec['pressure_points'] = []
+            else:
+                sec['smoothing_window'] = 0
+                sec['temperature_points'] = []
+                sec['pressure_points'] = []
+    elif kind == 'iso':
+        if rng.random() < 0.7:
+            sec['T'] = float(rng.uniform(10, 5000))
+    elif kind == 'rodgers':
+        sec['temperature_layers'] = [float(x) for x in rng.uniform(50, 4000, size=n)]
+        if rng.random() < 0.5:
+            sec['correlation_length'] = float(rng.uniform(0.3, 12))
+    elif kind == 'tarray':
+        g = gen_tarray(rng)
+        m = len(g['tp_array']) if len(g['tp_array']) <= 2 * n + 2 else n
+        if rng.random() < 0.7:
+            sec['tp_array'] = list(g['tp_array'][:m])
+            if g['p_points'] is not None and rng.random() < 0.7:
+                sec['p_points'] = list(g['p_points'][:m])
+        elif rng.random() < 0.5:
+            sec['p_points'] = [float(10 ** x) for x in sorted(rng.uniform(-2, 6, size=2), reverse=True)]
+        if rng.random() < 0.5:
+            sec['reverse'] = bool(rng.random() < 0.5) if not zero_quota else False
+    else:   # tfile: a table of (T, P) / (P, T) / (T) columns; which column is what is said by the section
+        m = int(rng.integers(2, 2 * n + 2))
+        layout = ['TP', 'PT', 'T', 'PT'][int(rng.integers(0, 4))] if not zero_quota else 'PT'
+        units = ['Pa', 'bar', None][int(rng.integers(0, 3))]
+        T = [float(x) for x in rng.uniform(50, 4000, size=m)]
+        lp = rng.uniform(-7, 8, size=m) + np.arange(m) * 1e-7
+        r = rng.random()
+        lp = np.sort(lp)[::-1] if r < 0.5 else np.sort(lp) if r < 0.75 else lp
+        Pcol = [float(10 ** x) * (1.0 if units != 'bar' else 1e-5) for x in lp]
+        # (a .par file delivers numbers as floats, and numpy.loadtxt rejects skiprows=1.0: no skiprows on that route)
+        header = bool(rng.random() < 0.4) and skiprows_ok
+        lines = ['T P'] if header else ['# scratch profile']      # loadtxt: skiprows counts every line, then '#' lines go
+        for i in range(m):
+            cols = dict(TP=[T[i], Pcol[i]], PT=[Pcol[i], T[i]], T=[T[i]])[layout]
+            lines.append(' '.join(repr(v) for v in cols))
+        fil = dict(lines=lines)
+        sec['filename'] = '@file'
+        if header:
+            sec['skiprows'] = 1
+        elif (zero_quota or rng.random() < 0.3) and skiprows_ok:
+            sec['skiprows'] = 0
+        if layout == 'PT':
+            sec['temp_col'] = 1
+            sec['press_col'] = 0
+        else:
+            if zero_quota or rng.random() < 0.4:
+                sec['temp_col'] = 0
+            if layout == 'TP' and rng.random() < 0.7:
+                sec['press_col'] = 1
+        if units is not None:
+            sec['press_units'] = units
+    return sec, fil
+
+
+def gen_factory_case(rng, k):
+    kind = FACTORY_KINDS[k % len(FACTORY_KINDS)]
+    n = gen_nlayers(rng)
+    if kind == 'rodgers' and n > 90:
+        n = int(rng.integers(2, 90))
+    zero_quota = (k // len(FACTORY_KINDS)) % 3 == 0 and kind in ('guillot', 'npoint', 'tfile')
+    route = 'parfile' if k % 4 == 3 else 'factory'
+    sec, fil = gen_section(rng, kind, n, zero_quota, skiprows_ok=(route == 'factory'))
+    prior = []
+    for _ in range(int(rng.integers(0, 3))):         # what the session built before, same class
+        psec, pfil = gen_section(rng, kind, n, False)
+        if kind == 'tfile':                          # one scratch table per case: earlier sections read it their own way
+            psec = {k_: v for k_, v in psec.items() if k_ not in ('skiprows', 'temp_col', 'press_col')}
+            psec.update({k_: sec[k_] for k_ in ('skiprows',) if k_ in sec})
+            if rng.random() < 0.5:
+                psec['temp_col'] = 0
+            if len(fil['lines'][-1].split()) == 2 and rng.random() < 0.7:
+                psec['temp_col'], psec['press_col'] = (1, 0) if rng.random() < 0.5 else (0, 1)
+        prior.append(psec)
+    return dict(route=route, kind=kind, pressure=gen_pressure(rng, n), planet=gen_planet(rng), section=sec, prior=prior,
+                file=fil, zero_quota=bool(zero_quota))
+
+
+def par_value(v):
+    if isinstance(v, bool):
+        return 'True' if v else 'False'
+    if isinstance(v, (list, tuple)):
+        return ', '.join(repr(float(x)) for x in v) + (',' if len(v) < 2 else '')
+    if isinstance(v, str):
+        return v
+    return repr(v)
+
+
+def build_from_section(kind, sec, route, workdir, tag):
+    """the real route: a dict handed to create_temperature_profile, or a .par file read by ParameterParser"""
+    sec = {k_: (os.path.join(workdir, 'tp.dat') if v == '@file' else v) for k_, v in sec.items()}
+    if route == 'factory':
+        from taurex.parameter.factory import create_temperature_profile
+        cfg = {'profile_type': FACTORY[kind]}
+        for k_, v in sec.items():
+            cfg[k_] = list(v) if isinstance(v, list) else v
+        return create_temperature_profile(cfg)
+    from taurex.parameter import ParameterParser
+    fn = os.path.join(workdir, 'in_%s.par' % tag)
+    with open(fn, 'w') as fh:
+        fh.write('[Temperature]\nprofile_type = %s\n' % FACTORY[kind])
+        for k_, v in sec.items():
+            fh.write('%s = %s\n' % (k_, par_value(v)))
+    pp = ParameterParser()
+    pp.read(fn)
+    return pp.generate_temperature_profile()
+
+
+def resolve_by_model(ctx, kind, sections):
+    """Section.session on opaque tokens: for every section the constructor's keyword arguments as (name, source) with source
+    'd' (the constructor default) or the index of the section the value comes from"""
+    defaults = ctor_defaults(kind)
+    enc_d = C.N(len(defaults)) + ''.join(' %s d:%s' % (n_, n_) for n_, _ in defaults)
+    enc_s = C.N(len(sections))
+    for i, sec in enumerate(sections):
+        enc_s += ' ' + C.N(len(sec)) + ''.join(' %s %d:%s' % (k_, i, k_) for k_ in sec)
+    d = ctx.model().call('c12.section', enc_d, enc_s)
+    out = []
+    nsec = d.nat()
+    for i in range(nsec):
+        if d.nat() == 0:
+            out.append(None)
+            continue
+        toks = [d.tok() for _ in range(d.nat())]
+        kw = {}
+        for (n_, dv), t in zip(defaults, toks):
+            src, name = t.split(':', 1)
+            kw[n_] = dv if src == 'd' else sections[int(src)][name]
+        out.append(kw)
+    return out
+
+
+def case_from_kwargs(c, kw):
+    """the directly-constructed case that has the keyword arguments `kw` (the format judge / run_model understand)"""
+    kind = c['kind']
+    e = dict(kind=kind, route=c['route'], pressure=c['pressure'], planet=c['planet'], sub='section')
+    if kind == 'guillot':
+        e['params'] = {k_: float(kw[k_]) for k_ in ('T_irr', 'kappa_irr', 'kappa_v1', 'kappa_v2', 'alpha', 'T_int')}
+    elif kind == 'npoint':
+        for k_ in ('T_surface', 'T_top', 'P_surface', 'P_top', 'smoothing_window', 'limit_slope'):
+            e[k_] = kw[k_]
+        e['temperature_points'] = list(kw['temperature_points'])
+        e['pressure_points'] = list(kw['pressure_points'])
+    elif kind == 'iso':
+        e['T'] = float(kw['T'])
+    elif kind == 'rodgers':
+        e.update(temperature_layers=list(kw['temperature_layers']), correlation_length=float(kw['correlation_length']),
+                 covariance=None, sub='default')
+    elif kind == 'tarray':
+        e.update(tp_array=list(kw['tp_array']), p_points=None if kw['p_points'] is None else list(kw['p_points']),
+                 reverse=bool(kw['reverse']), sub='section-plain' if kw['p_points'] is None else 'section-pressure')
+    else:
+        rows = [ln.split() for ln in c['file']['lines'][int(kw['skiprows']):] if not ln.startswith('#')]
+        tcol = [float(r[int(kw['temp_col'])]) for r in rows]
+        pcol = None
+        if kw['press_col'] is not None:
+            fac = 1.0 if kw['press_units'] == 'Pa' else 1e5
+            pcol = [float(r[int(kw['press_col'])]) * fac for r in rows]
+        e.update(tp_array=tcol, p_points=pcol, tfile_pp=pcol, reverse=False,
+                 sub='section-plain' if pcol is None else 'section-pressure')
+    return e
+
+
+def eval_factory_case(ctx, c):
+    from taurex.data.planet import Planet
+    from taurex.exceptions import InvalidModelException
+    quiet()
+    kind, route = c['kind'], c['route']
+    sections = [dict(x) for x in c['prior']] + [dict(c['section'])]
+    if route == 'parfile':       # a .par file cannot say None; numbers arrive as floats
+        sections = [{k_: v for k_, v in sec.items() if v is not None} for sec in sections]
+    resolved = resolve_by_model(ctx, kind, sections)
+    kw = resolved[-1]
+    if kw is None:
+        ctx.malformed_outcome('section:unknown-keyword')
+        return
+    P = make_pressure(c['pressure'])
+    planet = Planet(planet_mass=c['planet']['mass'], planet_radius=c['planet']['radius'])
+    workdir = tempfile.mkdtemp(prefix='verif_c12_')
+    tp = None
+    try:
+        if c.get('file'):
+            with open(os.path.join(workdir, 'tp.dat'), 'w') as fh:
+                fh.write('\n'.join(c['file']['lines']) + '\n')
+        for i, sec in enumerate(sections[:-1]):      # the session so far; whatever it built is dropped
+            try:
+                build_from_section(kind, sec, route, workdir, 'p%d' % i)
+            except Exception:  # noqa
+                ctx.bucket('section:prior-rejected')
+        try:
+            tp = build_from_section(kind, sections[-1], route, workdir, 'x')
+            tp.initialize_profile(planet, len(P), P)
+            prof = np.array(tp.profile, dtype=float)
+            out = 'ok'
+        except InvalidModelException:
+            out, prof = 'invalid', None
+        except Exception as e_:
+            out, prof = 'error:' + type(e_).__name__, None
+    finally:
+        shutil.rmtree(workdir, ignore_errors=True)
+    ctx.bucket('section:%s:prior=%d' % (route, len(sections) - 1))
+    omitted = [n_ for n_, _ in ctor_defaults(kind) if n_ not in sections[-1]]
+    inherited = [n_ for n_ in omitted if any(n_ in sec for sec in sections[:-1])]
+    ctx.bucket('section:omits-a-keyword-an-earlier-section-set' if inherited else 'section:no-earlier-value-to-inherit')
+    dflt = dict(ctor_defaults(kind))
+    falsy = [n_ for n_, v in sections[-1].items() if isinstance(v, (int, float, list)) and not isinstance(v, bool)
+             and not v and v != dflt.get(n_)]
+    if falsy:
+        ctx.bucket('section:explicit-zero-or-empty:' + kind)
+    e = case_from_kwargs(c, kw)
+    judge(ctx, e, dict(c), None, given=(P, out, prof, planet, tp))
+
+
+# --------------------------------------------------------------------------------------- route: forward model
+# The profile as a forward model hands it out: SimpleForwardModel.initialize_profiles gives the temperature profile the planet,
+# the layer count and the layer pressures of the CURRENT evaluation.  One model object, a history of evaluations between which
+# the pressure range (atm_min_pressure / atm_max_pressure), the planet radius or the profile's own parameters are changed through
+# the model's fitting parameters; after every evaluation `model.temperatureProfile` is judged for the current parameters on
+# `model.pressureProfile`.
+FM_KINDS = ['guillot', 'npoint', 'guillot', 'tarray', 'iso', 'rodgers', 'guillot', 'npoint']
+
+
+def gen_fm_case(rng, k):
+    kind = FM_KINDS[k % len(FM_KINDS)]
+    while True:
+        base = dict(guillot=gen_guillot, npoint=gen_npoint, rodgers=gen_rodgers, tarray=gen_tarray)[kind](rng) \
+            if kind != 'iso' else dict(kind='iso', pressure=gen_pressure(rng, gen_nlayers(rng)), planet=gen_planet(rng),
+                                       T=float(rng.uniform(10, 5000)))
+        n = base['pressure']['n']
+        if n <= 60:
+            break
+    pmin, pmax = float(10 ** rng.uniform(-6, -1)), float(10 ** rng.uniform(3, 7))
+    base['pressure'] = dict(type='simple', pmin=pmin, pmax=pmax, n=n)
+    steps = []
+    for i in range(int(rng.integers(1, 5))):
+        st = {}
+        r = rng.random()
+        if i == 0 or r < 0.55:           # the pressure range moves (the first change always does)
+            which = int(rng.integers(0, 3))
+            if which in (0, 2):
+                pmax = float(pmax * 10 ** rng.uniform(-2, 1.5))
+                st['atm_max_pressure'] = pmax
+            if which in (1, 2):
+                pmin = float(min(pmin * 10 ** rng.uniform(-1.5, 2), pmax * 1e-2))
+                st['atm_min_pressure'] = pmin
+        elif r < 0.7:
+            st['planet_radius'] = float(rng.uniform(0.1, 3.0))
+        elif r < 0.9 and kind in ('iso', 'npoint', 'rodgers', 'guillot'):
+            st['profile'] = gen_update(rng, base)
+        steps.append(st)                 # {} = evaluated again with nothing changed
+    base.update(route='fm', steps=steps)
+    return base
+
+
+def eval_fm_case(ctx, c):
+    import copy
+    from taurex.model import TransmissionModel
+    from taurex.data.planet import Planet
+    from taurex.data.profiles.chemistry import TaurexChemistry, ConstantGas
+    from taurex.exceptions import InvalidModelException
+    quiet()
+    cur = copy.deepcopy({k_: v for k_, v in c.items() if k_ != 'steps'})
+    P0 = make_pressure(cur['pressure'])
+    _, _, _, tp = run_real(dict(cur, kind=c['kind']), P0) if c['kind'] != 'tfile' else (None, None, None, None)
+    if tp is None:
+        ctx.malformed_outcome('fm:profile-constructor-raised')
+        return
+    ps = cur['pressure']
+    chem = TaurexChemistry(fill_gases=['H2', 'He'], ratio=0.17)
+    chem.addGas(ConstantGas('N2', mix_ratio=1e-4))
+    fm = TransmissionModel(planet=Planet(planet_mass=cur['planet']['mass'], planet_radius=cur['planet']['radius']),
+                           temperature_profile=tp, chemistry=chem, nlayers=ps['n'], atm_min_pressure=ps['pmin'],
+                           atm_max_pressure=ps['pmax'])
+
+    def evaluate(first):
+        try:
+            if first:
+                fm.build()
+            else:
+                fm.initialize_profiles()
+            return 'ok', np.array(fm.temperatureProfile, dtype=float)
+        except InvalidModelException:
+            return 'invalid', None
+        except Exception as e_:
+            return 'error:' + type(e_).__name__, None
+    for i in range(len(c['steps']) + 1):
+        if i > 0:
+            st = c['steps'][i - 1]
+            for name in ('atm_max_pressure', 'atm_min_pressure', 'planet_radius'):
+                if name in st:
+                    fm[name] = st[name]
+                    ctx.bucket('fm:step:' + name)
+            if 'atm_max_pressure' in st:
+                cur['pressure']['pmax'] = st['atm_max_pressure']
+            if 'atm_min_pressure' in st:
+                cur['pressure']['pmin'] = st['atm_min_pressure']
+            if 'planet_radius' in st:
+                cur['planet']['radius'] = st['planet_radius']
+            for u in st.get('profile') or []:
+                fm[u['param']] = u['value']
+                t = u['target']
+                if len(t) == 1:
+                    cur[t[0]] = u['value']
+                else:
+                    cur[t[0]][t[1] if isinstance(cur[t[0]], dict) else int(t[1])] = u['value']
+                ctx.bucket('fm:step:profile-parameter')
+            if not st:
+                ctx.bucket('fm:step:nothing-changed')
+        out, prof = evaluate(i == 0)
+        if i == 0 and out.startswith('error'):
+            ctx.malformed_outcome('fm:build-raised:' + out)
+            return
+        P = np.array(fm.pressureProfile, dtype=float)
+        e = dict(cur)
+        judge(ctx, e, dict(c, phase='after %d step(s)' % i, steps=c['steps'][:i]), None,
+              given=(P, out, prof, fm.planet, tp))
 
 
 # --------------------------------------------------------------------------------------- externals
@@ -818,6 +1266,10 @@ def run(ctx):
     with np.errstate(all='ignore'):
         for k in range(n):
             eval_case(ctx, gen_case(ctx.rng, k))
+        for k in range(ctx.n(720, 12000)):
+            eval_case(ctx, gen_factory_case(ctx.rng, k))
+        for k in range(ctx.n(320, 5000)):
+            eval_case(ctx, gen_fm_case(ctx.rng, k))
     malformed(ctx)
 
 
